@@ -3,22 +3,39 @@
 (* small configurations: one initial state per configuration, one step per   *)
 (* theorem (tables ipT / binT memoise InPlaneOf / BinOf of Geometry.tla).    *)
 EXTENDS Coordinates
-CONSTANTS MaxN, MaxR, MaxTofMash
+CONSTANTS MaxN, MaxR, MaxTofMash, MaxRB
 VARIABLES c, k, ipT, binT
 
-Configs ==
+\* family A: all lay-outs of small scanners; family B: N = 4 with MaxRB rings, where axially compressed
+\* segments have an axial edge at which the nominal line leaves the scanner (MayMiss is exercised)
+ConfigsA ==
   { x \in [N : { n \in 4..MaxN : n % 2 = 0 }, R : 1..MaxR, span : 1..(2 * MaxR - 1), ge : BOOLEAN,
            maxDelta : 0..(MaxR - 1), mash : 1..(MaxN \div 2), tofMash : {0} \cup { m \in 1..MaxTofMash : m % 2 = 1 },
            maxT : {5}, minTang : {0}, maxTang : {0}, minSeg : {0}, maxSeg : 0..(MaxR - 1), trunc : 0..1] :
       /\ (x.ge => x.span = 1)
       /\ x.mash \in {1, 2, 3}
       /\ x.maxSeg = FullMaxSeg(x) }
+ConfigsB ==
+  { x \in [N : {4}, R : (MaxR + 1)..MaxRB, span : 2..(2 * MaxRB - 1), ge : {FALSE},
+           maxDelta : 1..(MaxRB - 1), mash : {1}, tofMash : {0, 1},
+           maxT : {3}, minTang : {0}, maxTang : {0}, minSeg : {0}, maxSeg : 0..(MaxRB - 1), trunc : {0}] :
+      /\ x.maxSeg = FullMaxSeg(x) }
+Configs == ConfigsA \cup ConfigsB
 \* tangential range: full (trunc = 0) or reduced asymmetric (trunc = 1, as num_tangential_poss even gives)
 Norm(x) == [N |-> x.N, R |-> x.R, span |-> x.span, ge |-> x.ge, maxDelta |-> x.maxDelta, mash |-> x.mash,
             tofMash |-> x.tofMash, maxT |-> x.maxT,
             minTang |-> IF x.trunc = 0 THEN -(x.N \div 2) + 1 ELSE -((x.N \div 2) \div 2),
             maxTang |-> IF x.trunc = 0 THEN (x.N \div 2) - 1 ELSE ((x.N \div 2) \div 2) - 1,
             minSeg |-> -x.maxSeg, maxSeg |-> x.maxSeg]
+
+\* the escape clauses of the round-trip theorem are not vacuous: witnesses (evaluated once)
+WitnessC == [N |-> 8, R |-> 5, span |-> 3, ge |-> FALSE, maxDelta |-> 4, mash |-> 1, tofMash |-> 0, maxT |-> 0,
+             minTang |-> -2, maxTang |-> 1, minSeg |-> -1, maxSeg |-> 1]
+ASSUME LET ipW == IpTable(WitnessC) IN
+       /\ InScope(WitnessC)
+       /\ \E b \in AllBins(WitnessC) : MayMiss(WitnessC, b) /\ NoBin \in RTOutcomes(WitnessC, b, ipW) /\ ~TangEdge(WitnessC, b)
+       /\ \E b \in AllBins(WitnessC) : TangEdge(WitnessC, b) /\ NoBin \in RTOutcomes(WitnessC, b, ipW) /\ ~MayMiss(WitnessC, b)
+       /\ \E b \in AllBins(WitnessC) : \E x \in RTOutcomes(WitnessC, b, ipW) : x # NoBin /\ x # b /\ x.seg = -b.seg /\ b.seg # 0
 
 Init == /\ k = 0 /\ ipT = <<>> /\ binT = <<>>
         /\ c \in { Norm(x) : x \in Configs }
